@@ -53,8 +53,12 @@ func isShutdown(s syscall.Signal) bool {
 
 type sigScenario struct {
 	Kind string `json:"kind"`
-	// Outcomes[i] is what service i's Shutdown does: 0 nil, 1 error, 2 panic.
+	// Outcomes[i] is what service i's Shutdown does: 0 nil, 1 error, 2 panic,
+	// 3 the context given to Handle becomes done while it shuts down (it used
+	// up the time) and it returns the context's error.
 	Outcomes []int `json:"outcomes"`
+	// CtxDone makes the context given to Handle done from the start.
+	CtxDone bool `json:"ctx_done,omitempty"`
 	// Signals are indexes into signalAlphabet.
 	Signals []int `json:"signals"`
 	// AddInTwoCalls registers the services with two Add calls.
@@ -68,6 +72,7 @@ type fakeService struct {
 	idx     int
 	outcome int
 	log     *[]string
+	cancel  context.CancelFunc
 }
 
 func (f *fakeService) Start(_ context.Context) error { return nil }
@@ -79,6 +84,10 @@ func (f *fakeService) Shutdown(_ context.Context) error {
 		return fmt.Errorf("service %d failed", f.idx)
 	case 2:
 		panic(fmt.Sprintf("service %d panicked", f.idx))
+	case 3:
+		f.cancel()
+
+		return fmt.Errorf("service %d: %w", f.idx, context.Canceled)
 	}
 
 	return nil
@@ -93,9 +102,15 @@ func (s *sigScenario) Exec(run func(threads ...func()) *verifsched.Exec) (out e3
 		ShutdownTimeout: time.Hour,
 	})
 
+	ctx, cancelCtx := context.WithCancel(context.Background())
+	defer cancelCtx()
+	if s.CtxDone {
+		cancelCtx()
+	}
+
 	var svcs []service.Interface
 	for i, o := range s.Outcomes {
-		svcs = append(svcs, &fakeService{idx: i, outcome: o, log: &log})
+		svcs = append(svcs, &fakeService{idx: i, outcome: o, log: &log, cancel: cancelCtx})
 	}
 
 	if s.AddInTwoCalls && len(svcs) >= 2 {
@@ -129,7 +144,7 @@ func (s *sigScenario) Exec(run func(threads ...func()) *verifsched.Exec) (out e3
 			}
 		},
 		func() {
-			status = h.Handle(context.Background())
+			status = h.Handle(ctx)
 			returned = true
 			log = append(log, fmt.Sprintf("Handle=%d", status))
 		},
@@ -208,7 +223,7 @@ func (s *sigScenario) Exec(run func(threads ...func()) *verifsched.Exec) (out e3
 	allCalled := strings.Join(shutdowns, " ") == strings.Join(want, " ")
 	if status == osutil.ExitCodeSuccess && !(allNil && allCalled) {
 		out.Viols = append(out.Viols, e3.Viol{Kind: "false-success",
-			What: fmt.Sprintf("Handle returned ExitCodeSuccess with outcomes %v (0 nil, 1 error, 2 panic) and calls %v", s.Outcomes, shutdowns)})
+			What: fmt.Sprintf("Handle returned ExitCodeSuccess with outcomes %v (0 nil, 1 error, 2 panic, 3 context done) and calls %v", s.Outcomes, shutdowns)})
 	}
 
 	if status != osutil.ExitCodeSuccess && allNil && allCalled {
@@ -560,7 +575,7 @@ func main() {
 		for ns := 0; ns <= maxSvc; ns++ {
 			dims := make([]int, ns)
 			for i := range dims {
-				dims[i] = 3
+				dims[i] = 4
 			}
 
 			outcomes := [][]int{{}}
@@ -576,6 +591,9 @@ func main() {
 					}
 
 					e3.Explore(c, &sigScenario{Kind: "signal", Outcomes: oc, Signals: append([]int(nil), seq...), AddInTwoCalls: len(seq)%2 == 1}, lim)
+					if len(seq) <= 2 {
+						e3.Explore(c, &sigScenario{Kind: "signal", Outcomes: oc, Signals: append([]int(nil), seq...), CtxDone: true}, lim)
+					}
 				})
 			}
 		}
